@@ -105,11 +105,15 @@ def run_check(prop, tier, seed, replay=None):
                 broken.append({"kind": "correspondence", "name": name, "detail": what, "case": rp})
         else:
             ctx.notes.append("model did not build; correspondence not evaluated")
-        if broken and not concrete:
-            concrete = list(prop.search(ctx, obs, broken))
+        known_sigs = {f["signature"] for f in C.load_known_findings() if f.get("property") == pid and f.get("status") == "known"}
+        # a violation that is only a listed known finding does not explain a broken proof or correspondence
+        fresh = [c for c in concrete if c[0] not in known_sigs]
+        if broken and not fresh:
+            concrete += list(prop.search(ctx, obs, broken))
+            fresh = [c for c in concrete if c[0] not in known_sigs]
         for sig, what, rp in concrete:
             V.violation(sig, what, rp, found_input=True)
-        if broken and not concrete:
+        if broken and not fresh:
             b = broken[0]
             V.violation("unproved:" + str(b["name"]),
                         "%s %s no longer checks and no failing input was found" % (b["kind"], b["name"]),
